@@ -166,8 +166,13 @@ func (p *provider) CreateScope(ctx context.Context) (Scope, error) {
 		return nil, err
 	}
 
-	// Track scope
+	// Track scope; a provider that was closed in the meantime no longer adopts it
 	p.scopesMu.Lock()
+	if p.scopes == nil {
+		p.scopesMu.Unlock()
+		_ = s.Close()
+		return nil, ErrProviderDisposed
+	}
 	p.scopes[s] = struct{}{}
 	p.scopesMu.Unlock()
 
